@@ -142,6 +142,10 @@ TRUSTED["C05"] = [
     "havoc-flow contracts of rmfd2ac / ac2mp_poly at their call sites in pLSCF_poles (their own contracts are proved separately)",
 ]
 
+TRUSTED["C03"] = [
+    "enumeration lemmas for the reference/roving split (pre_multisetup contract, shared with C14): np.delete as the increasing enumeration of the complement",
+]
+
 ASSUMPTIONS = {
     "C09": [
         "a mode-shape vector in a pole table is either entirely non-finite or entirely finite",
@@ -191,7 +195,13 @@ ASSUMPTIONS["C01"] = ["SSI_poles: step == 1, no uncertainty propagation (calc_un
 ASSUMPTIONS["C05"] = ["pLSCF_poles: number of model orders enumerated (2 and 3); channel and reference counts symbolic; rmfd2ac / ac2mp_poly: block count, channel count, state dimension symbolic",
                       "recovery of the coefficients of an exact right matrix fraction is NOT proved: bounded stand-in (labelled bounded)"]
 
+ASSUMPTIONS["C03"] = ["split: number of datasets enumerated (2); channel counts, reference lists (any order) and record lengths symbolic",
+                      "identification of the global system is NOT proved: bounded stand-in (labelled bounded)"]
+
 NOT_DECIDED = {
+    "C03": ["SSI_multi_setup itself (row selection, rescaling by pinv of the reference block, interleaving per block row, shift-invariance solve): exercised by the bounded "
+            "stand-in only, not under a deductive contract",
+            "that every preprocessing step of MultiSetup_PreGER re-establishes the split is proved under C14 (Inv_M)"],
     "C01": ["that order 2m contains exactly the system's m conjugate pairs (shift-invariance theorem + floating-point conditioning): bounded stand-in only",
             "the realisation routines SSI / SSI_fast themselves (SVD, QR, pseudo-inverse): exercised by the bounded stand-in, not under a deductive contract",
             "the hard-criteria filtering between SSI_poles and the stored tables is C09's subject"],
